@@ -351,15 +351,15 @@ func Run(r *ev.Run) {
 		m.runDialect(d, sub)
 	}
 	// non-vacuity
-	r.RequireAtLeast("statements_redacted", int64(r.Pick(4500, 280000)))
-	r.RequireAtLeast("markers_looked_for_in_redacted_forms", int64(r.Pick(30000, 1500000)))
-	r.RequireAtLeast("shape_checked", int64(r.Pick(4000, 250000)))
+	r.RequireAtLeast("statements_redacted", int64(r.Pick(4500, 220000)))
+	r.RequireAtLeast("markers_looked_for_in_redacted_forms", int64(r.Pick(30000, 1200000)))
+	r.RequireAtLeast("shape_checked", int64(r.Pick(4000, 200000)))
 	r.RequireAtLeast("handlequery_calls", int64(r.Pick(60000, 2000000)))
 	r.RequireAtLeast("handlequery_allowed", 10000)
 	r.RequireAtLeast("handlequery_denied", 10000)
 	r.RequireAtLeast("log_entries_captured", int64(r.Pick(60000, 2000000)))
 	r.RequireAtLeast("log_bytes_captured", 1000000)
-	r.RequireAtLeast("unparseable_statements_sent", int64(r.Pick(1500, 50000)))
+	r.RequireAtLeast("unparseable_statements_sent", int64(r.Pick(1500, 12000)))
 	r.RequireSetAtLeast("log_capture_classes", 100)
 	r.RequireSetAtLeast("judged_literal_kinds_checked", 9)
 	r.RequireSetAtLeast("slots_checked", 30)
@@ -376,7 +376,7 @@ var levels = []struct {
 
 func (m *monitor) runDialect(d sqlgen.Dialect, dir string) {
 	r := m.r
-	n := r.Pick(5000, 300000) / 2
+	n := r.Pick(5000, 240000) / 2
 	// statements are generated sequentially (markers and texts are a pure function of the seed)
 	g := sqlgen.New(r.Seed, "c16", d, sqlgen.Options{Literals: m.reg.source()})
 	gDeep := sqlgen.New(r.Seed, "c16-deep", d, sqlgen.Options{Literals: m.reg.source(), MaxDepth: 4})
@@ -433,7 +433,7 @@ func (m *monitor) runDialect(d sqlgen.Dialect, dir string) {
 		}
 		combo++
 		// unparseable variants of a part of the chunk
-		m.unparseablePhase(d, censors, cases, rng, r.Pick(900, 30000)/((n+chunk-1)/chunk))
+		m.unparseablePhase(d, censors, cases, rng, r.Pick(600, 6000)/((n+chunk-1)/chunk))
 		done += k
 	}
 	m.harvestedInvalid(d, censors)
@@ -501,6 +501,40 @@ func fragile(st *sqlgen.Stmt) string {
 		return "unknown"
 	}
 	return strings.Join(out, "+")
+}
+
+// openJoinBeforeOnDup recognises the statement shape of C13's known finding
+// insert-select-parentheses-dropped-before-on-duplicate-key (the printer drops the parentheses around a SELECT that
+// ends in a join without ON/USING and is followed by ON DUPLICATE KEY).
+func openJoinBeforeOnDup(text string) bool {
+	t, err := sqlparser.New(sqlparser.ModeStrict).Parse(strings.TrimSuffix(strings.TrimSpace(text), ";"))
+	if err != nil {
+		return false
+	}
+	ins, ok := t.(*sqlparser.Insert)
+	if !ok || len(ins.OnDup) == 0 {
+		return false
+	}
+	var last func(rows sqlparser.InsertRows) bool
+	last = func(rows sqlparser.InsertRows) bool {
+		switch v := rows.(type) {
+		case *sqlparser.Union:
+			if v.OrderBy != nil || v.Limit != nil || v.Lock != "" {
+				return false
+			}
+			if right, ok := v.Right.(*sqlparser.Select); ok {
+				return last(right)
+			}
+		case *sqlparser.Select:
+			if v.Where != nil || v.GroupBy != nil || v.Having != nil || v.OrderBy != nil || v.Limit != nil || v.Lock != "" || len(v.From) == 0 {
+				return false
+			}
+			j, ok := v.From[len(v.From)-1].(*sqlparser.JoinTableExpr)
+			return ok && j.Condition.On == nil && j.Condition.Using == nil && !strings.HasPrefix(j.Join, "natural")
+		}
+		return false
+	}
+	return last(ins.Rows)
 }
 
 func safely(r *ev.Run, what string, text string, f func()) {
@@ -608,7 +642,11 @@ func (m *monitor) redactionPhase(d sqlgen.Dialect, cases []stmtCase) {
 			r.Count("shape_checked", 1)
 			switch {
 			case o.shapeErr != "":
-				r.Violation(fmt.Sprintf("redacted form does not parse: dialect=%s cause=%s", d, fragile(c.st)), map[string]interface{}{"statement": c.text, "redacted": o.redacted["HandleRawSQLQuery(strict)"], "error": o.shapeErr})
+				cause := fragile(c.st)
+				if cause == "unknown" && openJoinBeforeOnDup(c.text) {
+					cause = "insert-select-ending-in-join-without-condition-before-on-duplicate-key"
+				}
+				r.Violation(fmt.Sprintf("redacted form does not parse: dialect=%s cause=%s", d, cause), map[string]interface{}{"statement": c.text, "redacted": o.redacted["HandleRawSQLQuery(strict)"], "error": o.shapeErr})
 			case o.skOrig != o.skRed:
 				r.Violation(fmt.Sprintf("redacted form changes the statement's shape: dialect=%s cause=%s", d, fragile(c.st)), map[string]interface{}{"statement": c.text, "redacted": o.redacted["HandleRawSQLQuery(strict)"], "skeleton_original": o.skOrig, "skeleton_redacted": o.skRed})
 			}
